@@ -37,8 +37,14 @@ META = dict(
 def jobs(tier):
     js = []
     for kind in ("rgba-str", "rgba-tuple"):
-        for bg in ("tuple", "str"):
+        for bg in ("tuple", "str", "list", "float", "pct"):
             js.append(dict(kind=kind, bg=bg))
+    for bg in ("float", "pct"):
+        if tier == "quick":
+            js.append(dict(kind="hsla-str", bg=bg, sector=True))    # hue restricted to [0, 60]: which background is used does not depend on the sector
+        else:
+            for i in range(6):
+                js.append(dict(kind="hsla-str", bg=bg, shard=[i, 6, 22]))
     for bg in ("tuple", "str"):
         for i in range(4):
             js.append(dict(kind="hsla-str", bg=bg, shard=[i, 4, 14]))
@@ -100,13 +106,26 @@ def run_job(job):
                 c07.hsla_obligations(eng, pair.bg.rgb, h, s_, l_, al, (255, 255, 255), "translucent hsla background")
             eng.oblige("text unaffected", eq_rgb(pair.text.rgb, B0))
             return pair
-        bgv = B0 if job["bg"] == "tuple" else "rgb(%s,%s,%s)" % tuple(B0)
+        # the background in several spellings; whatever it is parsed to (pair.bg.rgb) is "the pair's own background"
+        exact_bg = True
+        if job["bg"] == "tuple":
+            bgv = B0
+        elif job["bg"] == "list":
+            bgv = list(B0)
+        elif job["bg"] == "str":
+            bgv = "rgb(%s,%s,%s)" % tuple(B0)
+        elif job["bg"] == "float":
+            bgv = tuple(eng.real_var("f" + n, 0, 1) for n in "rgb")      # floats in [0,1]: the library scales them by 255
+            exact_bg = False
+        else:
+            bgv = tuple("%s%%" % eng.numeral(eng.real_var("p" + n, 0, 100)) for n in "rgb")   # percentage strings
+            exact_bg = False
         if kind == "rgba-str":
             text = "rgba(%s, %s, %s, %s)" % (a, b, c, al)
         elif kind == "rgba-tuple":
             text = (a, b, c, al)
         else:
-            h, s_, l_ = eng.real_var("th", 0, 360), eng.real_var("ts", 0, 100), eng.real_var("tl", 0, 100)
+            h, s_, l_ = eng.real_var("th", 0, 60 if job.get("sector") else 360), eng.real_var("ts", 0, 100), eng.real_var("tl", 0, 100)
             text = "hsla(%s, %s%%, %s%%, %s)" % (h, s_, l_, al)
         large = eng.bool_var("large")
         pair = m.colors.ColorPair(text, bgv, large)
@@ -114,7 +133,11 @@ def run_job(job):
         if not pair.is_valid:
             return pair
         T, B = pair.text.rgb, pair.bg.rgb
-        eng.oblige("background parsed to itself", eq_rgb(B, B0))
+        if exact_bg:
+            eng.oblige("background parsed to itself", eq_rgb(B, B0))
+        else:
+            eng.oblige("background is a valid 8-bit colour", is_valid8(tuple(B)))
+            B0 = B            # composited over the pair's own (parsed) background
         eng.oblige("composite is a valid 8-bit colour", is_valid8(tuple(T)))
         if kind.startswith("rgba"):
             blend = ref.source_over((a, b, c), al, B0)
@@ -177,7 +200,16 @@ def replay_pair(inp):
         if any(abs(o - e) > 1.5 + 1e-9 for o, e in zip(pair.bg.rgb, blend)) or pair.text.rgb != B0:
             bad.append("background %r vs blend over white %r" % (pair.bg.rgb, blend))
         return bool(bad), "ColorPair(%r, %r): bg.rgb=%r :: %s" % (B0, bgv, pair.bg.rgb, bad)
-    bgv = B0 if job["bg"] == "tuple" else "rgb(%d,%d,%d)" % B0
+    if job["bg"] == "tuple":
+        bgv = B0
+    elif job["bg"] == "list":
+        bgv = list(B0)
+    elif job["bg"] == "str":
+        bgv = "rgb(%d,%d,%d)" % B0
+    elif job["bg"] == "float":
+        bgv = tuple(float(dec(g("f" + c, 1), 6)) for c in "rgb")
+    else:
+        bgv = tuple("%s%%" % dec(g("p" + c, 100), 4) for c in "rgb")
     if kind == "rgba-str":
         text = "rgba(%d, %d, %d, %s)" % (rgb + (dec(g("ta")),))
         col = rgb
@@ -192,6 +224,8 @@ def replay_pair(inp):
     if not pair.is_valid:
         return True, "ColorPair(%r, %r) invalid: %r" % (text, bgv, pair.errors)
     T, B = pair.text.rgb, pair.bg.rgb
+    if job["bg"] in ("float", "pct"):
+        B0 = B                       # whatever the background was parsed to is the pair's own background
     blend = ref.source_over(col, al, B0)
     if B != B0:
         bad.append("background parsed as %r" % (B,))
@@ -222,7 +256,9 @@ def _ladder(job):
         for t, b in list(pairs())[::3]:
             h, l, s = colorsys.rgb_to_hls(t[0] / 255, t[1] / 255, t[2] / 255)
             yield dict(tr=t[0], tg=t[1], tb=t[2], br=b[0], bg=b[1], bb=b[2], ta=al, th=Fraction(round(h * 360)), ts=Fraction(round(s * 100)),
-                       tl=Fraction(round(l * 100)), large=False)
+                       tl=Fraction(round(l * 100)), large=False,
+                       fr=Fraction(b[0], 255), fg=Fraction(b[1], 255), fb=Fraction(b[2], 255),
+                       pr=Fraction(b[0] * 100, 255), pg=Fraction(b[1] * 100, 255), pb=Fraction(b[2] * 100, 255))
 
 
 REPLAYS = {"pair": replay_pair, "numre": c07.replay_numre}
